@@ -38,6 +38,7 @@ MergeVerdicts(ev) ==
        \o (IF ev.same = 0 /\ out # DesignMergeSelect(a, b) THEN <<"DEV_differs_from_transcribed_rule">> ELSE <<>>)
 Verdicts(ev) == CASE ev.op = "mul" -> MulVerdicts(ev) [] ev.op = "acc" -> AccVerdicts(ev) [] ev.op = "add" -> AddVerdicts(ev)
                   [] ev.op = "merge" -> MergeVerdicts(ev)
+                  [] ev.op = "alias" -> (IF ev.same = 1 THEN <<>> ELSE <<"earlier_result_changed_by_a_later_call">>)
 Init == i = 1
 Next == /\ i <= Len(Tr)
         /\ LET v == Verdicts(Tr[i]) IN IF v # <<>> THEN PrintT(<<"REJECT", i, v>>) ELSE TRUE
